@@ -27,6 +27,7 @@ type shOp struct {
 	H     int      `json:"h"`
 	Name  string   `json:"name"`
 	Attrs []string `json:"attrs"`
+	Want  []string `json:"want"` // log operations: the predicted visible fields of that entry
 }
 type shBeh struct {
 	Hist  []shOp     `json:"hist"`
@@ -339,7 +340,7 @@ func replaySlog(b shBeh, seed int64) (finds []Finding) {
 			nodes = append(nodes, child)
 			parent.h.WithAttrs([]slog.Attr{slog.Int("decoy", 1)})
 		case "log":
-			logThrough(parent, op.Attrs, b.Want, fmt.Sprintf("record %v through handler %d", op.Attrs, op.H))
+			logThrough(parent, op.Attrs, op.Want, fmt.Sprintf("record %v through handler %d", op.Attrs, op.H))
 		}
 	}
 	// isolation: every handler of the tree still produces its own entry
